@@ -25,13 +25,56 @@ def _const_key(e):
     return e.value if isinstance(e, ast.Constant) and isinstance(e.value, str) else None
 
 
+def _constant_rounds(loop):
+    """
+    the bodies of `for <names> in <literal tuple/list>` — one copy per element, with every target name that the element
+    binds to a constant replaced by it — or None when the loop is not of that form
+    """
+    import copy
+
+    it = loop.iter
+    if not isinstance(it, (ast.Tuple, ast.List)) or not it.elts or len(it.elts) > 8:
+        return None
+    tg = loop.target
+    names = [tg] if isinstance(tg, ast.Name) else list(tg.elts) if isinstance(tg, (ast.Tuple, ast.List)) else None
+    if names is None or not all(isinstance(n, ast.Name) for n in names):
+        return None
+    stored = {n.id for b in loop.body for n in ast.walk(b) if isinstance(n, ast.Name) and isinstance(n.ctx, ast.Store)}
+    if stored & {n.id for n in names}:
+        return None
+    out = []
+    for e in it.elts:
+        vals = [e] if isinstance(tg, ast.Name) else list(e.elts) if isinstance(e, (ast.Tuple, ast.List)) and len(e.elts) == len(names) else None
+        if vals is None:
+            return None
+        bind = {n.id: v for n, v in zip(names, vals) if isinstance(v, ast.Constant)}
+
+        class Sub(ast.NodeTransformer):
+            def visit_Name(self, x, _b=bind):
+                if x.id in _b and isinstance(x.ctx, ast.Load):
+                    return ast.copy_location(copy.deepcopy(_b[x.id]), x)
+                return x
+
+        out.append([Sub().visit(copy.deepcopy(b)) for b in loop.body])
+    return out
+
+
 class _Interp(object):
-    def __init__(self, name, nested, keys_of_call=None):
+    def __init__(self, name, nested, keys_of_call=None, effect_of_call=None):
         self.d = name
         self.nested = nested
         self.found = []
         # optional summary: the constant keys of the dict a call returns (set) or None when unknown
         self.keys_of_call = keys_of_call or (lambda call: None)
+        # optional summary: what a callee does to the dict it is handed: (keys certainly removed, keys possibly added)
+        # or None when unknown
+        self.effect_of_call = effect_of_call or (lambda call, name: None)
+        # for building such a summary of THIS function: every key possibly added, whether anything unknown may have
+        # been added, and the absent-set at every exit
+        self.added_all = set()
+        self.removed_all = set()
+        self.cleared = False
+        self.exits = []
 
     def is_d(self, e):
         return isinstance(e, ast.Name) and e.id == self.d
@@ -54,6 +97,28 @@ class _Interp(object):
     def effects(self, stmt, absent):
         """update `absent` with the removals / additions performed by simple statement `stmt`"""
         removed, added, clear = set(), set(), False
+        # removals that are only conditionally evaluated inside the statement (right operand of and/or, an arm of a
+        # conditional expression, inside a comprehension or lambda) are possible, not certain
+        maybe = set()
+        stack = [(stmt, False)]
+        while stack:
+            node_, cond_ = stack.pop()
+            if cond_:
+                maybe.add(id(node_))
+            for fld, val in ast.iter_fields(node_):
+                kids = val if isinstance(val, list) else [val]
+                for i, c in enumerate(kids):
+                    if not isinstance(c, ast.AST):
+                        continue
+                    cc = cond_
+                    if isinstance(node_, ast.BoolOp) and fld == "values" and i > 0:
+                        cc = True
+                    elif isinstance(node_, ast.IfExp) and fld in ("body", "orelse"):
+                        cc = True
+                    elif isinstance(node_, (ast.ListComp, ast.SetComp, ast.DictComp, ast.GeneratorExp, ast.Lambda)):
+                        cc = True
+                    stack.append((c, cc))
+        certain_removed = set()
         for n in ast.walk(stmt):
             if isinstance(n, (ast.Lambda, ast.FunctionDef, ast.AsyncFunctionDef)) and n is not stmt:
                 continue
@@ -61,6 +126,7 @@ class _Interp(object):
                 for t in n.targets:
                     if isinstance(t, ast.Subscript) and self.is_d(t.value) and _const_key(t.slice) is not None:
                         removed.add(_const_key(t.slice))
+                        certain_removed.add(_const_key(t.slice))
             elif isinstance(n, ast.Subscript) and self.is_d(n.value) and isinstance(n.ctx, ast.Store):
                 k = _const_key(n.slice)
                 if k is None:
@@ -72,6 +138,8 @@ class _Interp(object):
                 if isinstance(f, ast.Attribute) and self.is_d(f.value):
                     if f.attr == "pop" and n.args and _const_key(n.args[0]) is not None:
                         removed.add(_const_key(n.args[0]))
+                        if id(n) not in maybe:
+                            certain_removed.add(_const_key(n.args[0]))
                     elif f.attr == "setdefault" and n.args and _const_key(n.args[0]) is not None:
                         added.add(_const_key(n.args[0]))
                     elif f.attr == "update":
@@ -90,12 +158,37 @@ class _Interp(object):
                 else:
                     # d handed to another function (positional, keyword, or a nested helper that closes over it)
                     if any(self.is_d(a) for a in n.args) or any(self.is_d(k.value) for k in n.keywords):
-                        clear = True
+                        eff = self.effect_of_call(n, self.d)
+                        if eff is None:
+                            clear = True
+                        else:
+                            removed.update(eff[0])
+                            if id(n) not in maybe:
+                                certain_removed.update(eff[0])
+                            added.update(eff[1])
+                            self.removed_all |= eff[2]
                     if isinstance(f, ast.Name) and f.id in self.nested:
-                        clear = True
+                        # a nested helper that closes over the dict: its own summary (it cannot rebind the name
+                        # without `nonlocal`, which call_effect refuses)
+                        node_ = self.nested[f.id] if isinstance(self.nested, dict) else None
+                        eff = None
+                        if node_ is not None and not any(isinstance(x, ast.Nonlocal) for x in ast.walk(node_)) and self.d not in {a.arg for a in node_.args.args + node_.args.kwonlyargs}:
+                            eff = call_effect(node_, self.d, self.keys_of_call, None)
+                        if eff is None:
+                            clear = True
+                        else:
+                            removed.update(eff[0])
+                            if id(n) not in maybe:
+                                certain_removed.update(eff[0])
+                            added.update(eff[1])
+                            self.removed_all |= eff[2]
+        self.added_all |= added
+        self.removed_all |= removed
         if clear:
+            self.cleared = True
             return set()
-        return (absent | removed) - added
+        # a callee summary may both add and remove a key (on different paths): "possibly added" wins
+        return (absent | certain_removed) - added
 
     def cond(self, t):
         """(keys certainly absent when t is true, keys certainly absent when t is false)"""
@@ -152,6 +245,17 @@ class _Interp(object):
             if b is None:
                 return a
             return a & b
+        if isinstance(s, ast.For) and not s.orelse:
+            rounds = _constant_rounds(s)
+            if rounds is not None and not any(isinstance(x, (ast.Break, ast.Continue)) for b in s.body for x in ast.walk(b)):
+                # for k in ("a", "b"): ...   /   for short, long in (("PK", "primary_key"), (<expr>, "foreign_key")): ...
+                # — a loop over a literal sequence is the sequence of its bodies with the constant names substituted
+                self.reads(s.iter, absent)
+                for body in rounds:
+                    absent = self.block(body, absent)
+                    if absent is None:
+                        return None
+                return absent
         if isinstance(s, (ast.For, ast.AsyncFor, ast.While)):
             self.reads(s.iter if not isinstance(s, ast.While) else s.test, absent)
             self.block(s.body, set())
@@ -170,17 +274,69 @@ class _Interp(object):
             self.block(s.orelse, set())
             self.block(s.finalbody, set())
             return set()
+        if isinstance(s, ast.Assert):
+            # `assert K not in d` where K is certainly absent restates what is known: harmless (unlike `if`, nothing is
+            # left unguarded by a constant-true assertion); anything else in an assertion is read as usual
+            t = s.test
+            if not (isinstance(t, ast.Compare) and len(t.ops) == 1 and isinstance(t.ops[0], ast.NotIn) and self.is_d(t.comparators[0]) and _const_key(t.left) in absent):
+                self.reads(s, absent)
+            return self.effects(s, absent)
         if isinstance(s, (ast.Return, ast.Raise)):
             self.reads(s, absent)
+            if isinstance(s, ast.Return):
+                self.exits.append(self.effects(s, absent))
             return None
         self.reads(s, absent)
         return self.effects(s, absent)
 
 
-def stale_reads(fn_node, name, keys_of_call=None):
+def call_effect(fn_node, param, keys_of_call=None, effect_of_call=None):
+    """
+    summary of what function `fn_node` does to the dict it receives as `param`:
+    (keys certainly absent at every normal exit, keys it may add) — or None when it may add unknown keys
+    (non-constant key, update(<unknown>), hands the dict on to something unknown, rebinds the parameter).
+    """
+    for n in ast.walk(fn_node):
+        if isinstance(n, ast.Name) and n.id == param and isinstance(n.ctx, (ast.Store, ast.Del)):
+            return None
+    nested = {n.name: n for n in ast.walk(fn_node) if isinstance(n, (ast.FunctionDef, ast.AsyncFunctionDef)) and n is not fn_node}
+    it = _Interp(param, nested, keys_of_call, effect_of_call)
+    body = [s for s in fn_node.body if not (isinstance(s, ast.Expr) and isinstance(s.value, ast.Constant))]
+    end = it.block(body, set())
+    if it.cleared:
+        return None
+    exits = list(it.exits) + ([end] if end is not None else [])
+    if not exits:
+        return (set(), set(it.added_all), set(it.removed_all))
+    must = set(exits[0])
+    for e in exits[1:]:
+        must &= e
+    return (must - it.added_all, set(it.added_all), set(it.removed_all))
+
+
+def survivors(fn_node, name, keys_of_call=None, effect_of_call=None):
+    """
+    Keys of local dict `name` that the function (or a helper it hands the dict to) removes on SOME path but that are
+    not certainly absent at EVERY normal exit: a key the function treats as foreign vocabulary can survive.
+    (removed somewhere, certainly absent at every exit, whether unknown keys may have been added)
+    """
+    nested = {n.name: n for n in ast.walk(fn_node) if isinstance(n, (ast.FunctionDef, ast.AsyncFunctionDef)) and n is not fn_node}
+    it = _Interp(name, nested, keys_of_call, effect_of_call)
+    body = [s for s in fn_node.body if not (isinstance(s, ast.Expr) and isinstance(s.value, ast.Constant))]
+    end = it.block(body, set())
+    exits = list(it.exits) + ([end] if end is not None else [])
+    if not exits:
+        return set(it.removed_all), set(it.removed_all), it.cleared
+    must = set(exits[0])
+    for e in exits[1:]:
+        must &= e
+    return set(it.removed_all), must, it.cleared
+
+
+def stale_reads(fn_node, name, keys_of_call=None, effect_of_call=None):
     """[(node, key)] reads of keys of local dict `name` that are certainly absent where they are read"""
-    nested = {n.name for n in ast.walk(fn_node) if isinstance(n, (ast.FunctionDef, ast.AsyncFunctionDef)) and n is not fn_node}
-    it = _Interp(name, nested, keys_of_call)
+    nested = {n.name: n for n in ast.walk(fn_node) if isinstance(n, (ast.FunctionDef, ast.AsyncFunctionDef)) and n is not fn_node}
+    it = _Interp(name, nested, keys_of_call, effect_of_call)
     body = [s for s in fn_node.body if not (isinstance(s, ast.Expr) and isinstance(s.value, ast.Constant))]
     it.block(body, set())
     # de-duplicate (a read inside a Compare is also found as the inner call)
@@ -222,6 +378,49 @@ def self_test():
     return len(bad) == 1 and bad[0][1] == "typ" and not good
 
 
+def summaries(index, f):
+    """(keys_of_call, effect_of_call) for calls made inside function f: summaries of the package functions it calls"""
+    from .core import iter_own
+
+    def keys_of_call_in(_f, call):
+        """constant keys of the dict literal(s) a package function returns, when that is all it returns"""
+        h = index.funcs.get(index.callee(_f.mod, call, _f) or "")
+        if h is None:
+            return None
+        keys = set()
+        rets = [r for r in iter_own(h.node) if isinstance(r, ast.Return)]
+        if not rets:
+            return None
+        for r in rets:
+            v = r.value
+            if isinstance(v, ast.Dict) and None not in v.keys and all(isinstance(k, ast.Constant) and isinstance(k.value, str) for k in v.keys):
+                keys.update(k.value for k in v.keys)
+            elif isinstance(v, ast.Call) and isinstance(v.func, ast.Name) and v.func.id == "dict" and not v.args and all(k.arg for k in v.keywords):
+                keys.update(k.arg for k in v.keywords)
+            else:
+                return None
+        return keys
+
+    depth = [0]
+
+    def effect_of_call(call, name):
+        """what a package function does to the dict `name` handed to it (one parameter, bound by position or keyword)"""
+        h = index.funcs.get(index.callee(f.mod, call, f) or "")
+        if h is None or depth[0] >= 2:
+            return None
+        bound = [p_ for p_, a_ in index.bound_args(f.mod, call, f).items() if isinstance(a_, ast.Name) and a_.id == name]
+        n_passed = sum(1 for a_ in list(call.args) + [k_.value for k_ in call.keywords] if isinstance(a_, ast.Name) and a_.id == name)
+        if len(bound) != 1 or n_passed != 1 or bound[0] not in h.params:
+            return None
+        depth[0] += 1
+        try:
+            return call_effect(h.node, bound[0], lambda c, _h=h: keys_of_call_in(_h, c), None)
+        finally:
+            depth[0] -= 1
+
+    return (lambda call: keys_of_call_in(f, call)), effect_of_call
+
+
 def stale_rule(ctx, rule, funcs, what):
     """
     run the interpreter over every local dict with constant string keys of `funcs`; one obligation per
@@ -238,28 +437,11 @@ def stale_rule(ctx, rule, funcs, what):
                 names.add(x.value.id)
             if isinstance(x, ast.Call) and isinstance(x.func, ast.Attribute) and x.func.attr in ("pop", "get") and isinstance(x.func.value, ast.Name) and x.args and isinstance(x.args[0], ast.Constant) and isinstance(x.args[0].value, str):
                 names.add(x.func.value.id)
-        def keys_of_call(call, _f=f):
-            """constant keys of the dict literal(s) a package function returns, when that is all it returns"""
-            h = ctx.index.funcs.get(ctx.index.callee(_f.mod, call, _f) or "")
-            if h is None:
-                return None
-            keys = set()
-            rets = [r for r in iter_own(h.node) if isinstance(r, ast.Return)]
-            if not rets:
-                return None
-            for r in rets:
-                v = r.value
-                if isinstance(v, ast.Dict) and None not in v.keys and all(isinstance(k, ast.Constant) and isinstance(k.value, str) for k in v.keys):
-                    keys.update(k.value for k in v.keys)
-                elif isinstance(v, ast.Call) and isinstance(v.func, ast.Name) and v.func.id == "dict" and not v.args and all(k.arg for k in v.keywords):
-                    keys.update(k.arg for k in v.keywords)
-                else:
-                    return None
-            return keys
+        keys_of_call, effect_of_call = summaries(ctx.index, f)
 
         for nm in sorted(names):
             n += 1
-            found = stale_reads(f.node, nm, keys_of_call)
+            found = stale_reads(f.node, nm, keys_of_call, effect_of_call)
             if not found:
                 ctx.ob(rule, f, "no read of a translated-away key of `{}`".format(nm), True, line=f.node.lineno)
             for node, k in found:
